@@ -21,7 +21,7 @@ NameAtoms == {[t |-> "name", b |-> s] : s \in Strs}             \* including the
 IntLits == {"0", "1", "-1", "255", "2147483647", "2147483648", "-2147483648", "-2147483649",
             "9223372036854775807", "-9223372036854775808", "4294967296"}
 RealLits == {"0.5", "-0.5", "0.000001", "-0.000001", "0.0000004", "123456.789012", "1.5", "100.0", "-0.0",
-             "0.1", "0.333333333", "1000000000000000.0", "0.999999999", "-123.456", "3.14159265358979", "1e-7", "1e15", "2.5e20"}
+             "0.1", "0.333333333", "1000000000000000.0", "0.999999999", "-123.456", "3.14159265358979", "1e-7", "1e15", "2.5e20", "-2.5e20", "-9300000000000000000.0", "9300000000000000000.0", "-1e15"}
 NumAtoms == {[t |-> "int", s |-> x] : x \in IntLits} \cup {[t |-> "real", s |-> x] : x \in RealLits}
 Simple == {[t |-> "null"], [t |-> "bool", v |-> TRUE], [t |-> "bool", v |-> FALSE], [t |-> "ref", n |-> 12, g |-> 0],
            [t |-> "ref", n |-> 4000000, g |-> 65535]}
